@@ -17,6 +17,14 @@ Theorem C13_rle_decode_prefix : forall xs tl cap,
 Proof. exact rle_decode_prefix. Qed.
 Print Assumptions C13_rle_decode_prefix.
 
+(* on ANY input bytes (valid or hostile) varintRLEDecode stores below the
+   capacity only — after the fix of the wrapping `totalDecoded + runLen`
+   comparison there is no other outcome in the model *)
+Theorem C13_rle_decode_cap_any_input : forall z cap,
+  N.of_nat (length (rres_stores (rle_decode z cap))) <= cap.
+Proof. exact rle_decode_cap. Qed.
+Print Assumptions C13_rle_decode_cap_any_input.
+
 (* varintRLEDecodeWithHeader is all-or-nothing: capacity below the stored count
    -> returns 0 without a store; otherwise the whole array *)
 Theorem C13_rle_header_all_or_nothing : forall xs tl cap,
@@ -46,7 +54,7 @@ Print Assumptions C13_dict_into_all_or_nothing.
    most maxValues elements (also when it finally returns 0) *)
 Theorem C13_dict_into_cap_any_input : forall z n cap,
   N.of_nat (length (dec_stores (dict_decode_into z n cap))) <= cap.
-Proof. exact (fun z n cap => proj1 (proj2 (proj2 (dict_decode_into_safe z n cap)))). Qed.
+Proof. exact dict_decode_into_cap. Qed.
 Print Assumptions C13_dict_into_cap_any_input.
 
 Example C13_example :
